@@ -46,11 +46,14 @@ PHASES = [-30, -20, -10, 0, 5]
 
 PIN_SPEC = {
     # ActionState.execute_actions and ActionConfiguratorMixin.action are TRANSLATED (harness/c04/translate.py), not pinned
-    'pyramid/config/actions.py': ['ActionState.action', 'ConflictResolverState',
+    'pyramid/config/actions.py': ['ActionState.action', 'ActionState.__init__', 'ActionState.processSpec',
+                                  'ActionConfiguratorMixin._get_action_state', 'ActionConfiguratorMixin._set_action_state',
+                                  'ConflictResolverState',
                                   'resolveConflicts', 'normalize_actions', 'expand_action_tuple',
                                   'ActionConfiguratorMixin.commit'],
     'pyramid/config/__init__.py': ['Configurator.include'],
     'pyramid/registry.py': ['Deferred', 'undefer'],
+    'pyramid/exceptions.py': ['ConfigurationConflictError.__init__'],
 }
 
 
@@ -235,6 +238,43 @@ def facts(src):
             problems.append('Configurator.include: spec expression unrecognised: %r' % sp)
     except Exception as e:
         problems.append('include facts: %r' % (e,))
+    try:
+        # class-level wiring the model relies on (coverage audit)
+        ma = F.Module(src, 'pyramid/config/actions.py')
+        mixin = [n for n in ma.tree.body if isinstance(n, ast.ClassDef) and n.name == 'ActionConfiguratorMixin'][0]
+        props = [_u(n) for n in mixin.body if isinstance(n, ast.Assign)]
+        if 'action_state = property(_get_action_state, _set_action_state)' not in props:
+            problems.append('ActionConfiguratorMixin: action_state is no longer property(_get_action_state, _set_action_state)')
+        decos = {n.name: [_u(x) for x in n.decorator_list] for n in mixin.body if isinstance(n, ast.FunctionDef)}
+        if decos.get('action') or decos.get('commit'):
+            problems.append('ActionConfiguratorMixin.action/commit gained a decorator: %r' % decos)
+        mc = F.Module(src, 'pyramid/config/__init__.py')
+        conf = [n for n in mc.tree.body if isinstance(n, ast.ClassDef) and n.name == 'Configurator'][0]
+        if 'includepath = ()' not in [_u(n) for n in conf.body if isinstance(n, ast.Assign)]:
+            problems.append('Configurator: the class-level root includepath is no longer ()')
+        if 'ActionConfiguratorMixin' not in [_u(b) for b in conf.bases]:
+            problems.append('Configurator no longer derives from ActionConfiguratorMixin')
+        init = mc.find('Configurator.__init__')
+        defaults = dict(zip([a.arg for a in init.args.args][-len(init.args.defaults):], [_u(x) for x in init.args.defaults]))
+        if defaults.get('autocommit') != 'False':
+            problems.append('Configurator.__init__: autocommit no longer defaults to False')
+        ini = [_u(n) for n in ast.walk(init) if isinstance(n, ast.Assign)]
+        if 'self.autocommit = autocommit' not in ini:
+            problems.append('Configurator.__init__: self.autocommit = autocommit not found')
+        if any(x.startswith('self.includepath') for x in ini):
+            problems.append('Configurator.__init__ assigns self.includepath')
+        wp = mc.find('Configurator.with_package')
+        if [_u(n.value) for n in ast.walk(wp) if isinstance(n, ast.Assign) and _u(n.targets[0]) == 'configurator.includepath'] != ['self.includepath']:
+            problems.append('Configurator.with_package: the copy no longer keeps self.includepath')
+        incdec = [_u(x) for x in mc.find('Configurator.include').decorator_list]
+        if incdec:
+            problems.append('Configurator.include gained a decorator: %r' % incdec)
+        me = F.Module(src, 'pyramid/exceptions.py')
+        cce = [n for n in me.tree.body if isinstance(n, ast.ClassDef) and n.name == 'ConfigurationConflictError'][0]
+        if [_u(b) for b in cce.bases] != ['ConfigurationError']:
+            problems.append('ConfigurationConflictError bases changed')
+    except Exception as e:
+        problems.append('class-level facts: %r' % (e,))
     try:
         mi = F.Module(src, 'pyramid/interfaces.py')
         d['phase_values'] = [int(mi.const('PHASE%d_CONFIG' % k)) for k in range(4)]
@@ -563,6 +603,9 @@ def _outcome(fn, log, rev=None):
         fn()
         return [0]
     except _impl['Conflict'] as e:
+        msg = str(e)
+        if not all(('For: %s' % (k,)) in msg for k in e._conflicts):
+            return ['EXC', 'conflict-message-omits-a-discriminator', msg[:80]]
         return [1, [[_key_num(rev, k), [_info_id(x) for x in v]] for k, v in e._conflicts.items()]]
     except _impl['ExecError'] as e:
         return ['EXC', 'ConfigurationExecutionError', type(e.evalue).__name__ if hasattr(e, 'evalue') else '']
@@ -649,8 +692,15 @@ def _run_resolve(case):
 def run_impl(case):
     if not _impl:
         setup('quick')
-    main = _run_include(case) if case['mode'] == 'include' else _run_direct(case)
-    return [main, _run_resolve(case)]
+    try:
+        main = _run_include(case) if case['mode'] == 'include' else _run_direct(case)
+    except Exception as e:                      # declaring through the public API failed: keep the shape, show the failure
+        main = [['EXC', 'declare:' + type(e).__name__, str(e)[:80]], []]
+    try:
+        res = _run_resolve(case)
+    except Exception as e:
+        res = [['EXC', 'resolve:' + type(e).__name__], [], [], [], 0]
+    return [main, res]
 
 
 # ------------------------------------------------------------------ judging
